@@ -43,15 +43,15 @@
 (***************************************************************************)
 EXTENDS FirstOrder, MeasDomain
 
-CONSTANTS RollQ, HeadQ,
+CONSTANTS RollQ, HeadQ, PitchQ,
           CoriolisOnce,    \* FALSE = the code; TRUE = the velocity update uses the transport-plus-Earth rate once instead of (chi + Omega): must be rejected
           TransportFlip    \* FALSE = the code; TRUE = the north transport rate with the wrong sign: must be rejected
 
-VARIABLES alt, rq, hq, vel, f, w,      \* the configuration
+VARIABLES alt, rq, pq, hq, vel, f, w,  \* the configuration
           pc,                          \* "vel" -> "mid" -> "pos" -> "att" -> "done"
           vnew, vmid, pnew, cnew,      \* duals computed so far (<<>> before)
           der                          \* the derived right-hand side of the configuration (computed once, in Init)
-vars == <<alt, rq, hq, vel, f, w, pc, vnew, vmid, pnew, cnew, der>>
+vars == <<alt, rq, pq, hq, vel, f, w, pc, vnew, vmid, pnew, cnew, der>>
 
 NB == 9
 FZ == [i \in 1..NB |-> 0]
@@ -98,7 +98,9 @@ DMatMulR(A, B) == [i \in 1..3 |-> [j \in 1..3 |-> DAddR(DAddR(DMulR(A[i][1], B[1
 DMatMul(A, B) == Bind2(DMatMulR, A, B)
 
 (* the configuration: without altitude the constructor zeroes the vertical velocity (strapdown.py:118-119) *)
-C0 == MatNBq(hq, rq)
+\* all 24 rotations of the cube: pitch quarters 0, 1, 3 (the step uses the attitude MATRIX only; Euler angles appear nowhere in it)
+Ry(k) == <<<<CQ(k), 0, SQ(k)>>, <<0, 1, 0>>, <<0 - SQ(k), 0, CQ(k)>>>>
+C0 == MMul(MMul(Rz(hq), Ry(pq)), Rx(rq))
 VE0 == IF alt THEN vel ELSE <<vel[1], vel[2], 0>>
 V(k) == DI(VE0[k])
 
@@ -132,18 +134,18 @@ VelocityUpdate ==
                                    GravityAt(DSub(DI(0), DMul(V(3), HalfDT)))), DT))
                ELSE DI(0)
      IN vnew' = <<n1, n2, n3>>
-  /\ pc' = "mid" /\ UNCHANGED <<alt, rq, hq, vel, f, w, der, vmid, pnew, cnew>>
+  /\ pc' = "mid" /\ UNCHANGED <<alt, rq, pq, hq, vel, f, w, der, vmid, pnew, cnew>>
 
 Midpoint ==                                                      \* V = 0.5 * (V + velocity_n[j + 1])
   /\ pc = "mid"
   /\ vmid' = [k \in 1..3 |-> DHalf(DAdd(V(k), vnew[k]))]
-  /\ pc' = "pos" /\ UNCHANGED <<alt, rq, hq, vel, f, w, der, vnew, pnew, cnew>>
+  /\ pc' = "pos" /\ UNCHANGED <<alt, rq, pq, hq, vel, f, w, der, vnew, pnew, cnew>>
 
 PositionUpdate ==                                                \* offsets from the old position; latitude and longitude in radians
   /\ pc = "pos"
   /\ LET rho == RhoOf(vmid[1], vmid[2])
      IN pnew' = <<DNeg(DMul(rho[2], DT)), DMul(DOverCos(rho[1]), DT), DNeg(DMul(vmid[3], DT))>>
-  /\ pc' = "att" /\ UNCHANGED <<alt, rq, hq, vel, f, w, der, vnew, vmid, cnew>>
+  /\ pc' = "att" /\ UNCHANGED <<alt, rq, pq, hq, vel, f, w, der, vnew, vmid, cnew>>
 
 \* mat_from_rotvec (series branch: the squared norm of a first-order vector is below any threshold)
 RotVec(rv) ==
@@ -163,7 +165,7 @@ AttitudeUpdate ==
          dBn == RotVec(xi)
          dBb == RotVec(Theta)
      IN cnew' = DMatMul(dBn, DMatMul(C0D, dBb))                  \* np.dot(mat_nb[j], dBb, C); np.dot(dBn, C, mat_nb[j + 1])
-  /\ pc' = "done" /\ UNCHANGED <<alt, rq, hq, vel, f, w, der, vnew, vmid, pnew>>
+  /\ pc' = "done" /\ UNCHANGED <<alt, rq, pq, hq, vel, f, w, der, vnew, vmid, pnew>>
 
 (***************************************************************************)
 (* (b) derived: the navigation equations, as forms                         *)
@@ -185,12 +187,12 @@ CDot == LET S == SkewF(OR)
               FSub(FI(CW[i][j]), FAdd(FAdd(FScale(C0[1][j], S[i][1]), FScale(C0[2][j], S[i][2])), FScale(C0[3][j], S[i][3])))]]
 Derived == PDot \o VDot \o CDot[1] \o CDot[2] \o CDot[3]          \* 15 forms: lat, lon, alt, VN, VE, VD, C11 .. C33
 
-Init == /\ alt \in BOOLEAN /\ rq \in RollQ /\ hq \in HeadQ /\ vel \in Vels /\ f \in Forces /\ w \in BodyRates
+Init == /\ alt \in BOOLEAN /\ rq \in RollQ /\ pq \in PitchQ /\ hq \in HeadQ /\ vel \in Vels /\ f \in Forces /\ w \in BodyRates
         /\ pc = "vel" /\ vnew = <<>> /\ vmid = <<>> /\ pnew = <<>> /\ cnew = <<>>
         /\ der = Derived
 Emit == /\ pc = "done" /\ pc' = "emitted"
-        /\ PrintT(<<"STEP", alt, rq, hq, vel, f, w, der>>)
-        /\ UNCHANGED <<alt, rq, hq, vel, f, w, der, vnew, vmid, pnew, cnew>>
+        /\ PrintT(<<"STEP", alt, rq, pq, hq, vel, f, w, der>>)
+        /\ UNCHANGED <<alt, rq, pq, hq, vel, f, w, der, vnew, vmid, pnew, cnew>>
 Next == VelocityUpdate \/ Midpoint \/ PositionUpdate \/ AttitudeUpdate \/ Emit
 Spec == Init /\ [][Next]_vars
 
